@@ -28,9 +28,12 @@ Oracle (independent of the model): from directory snapshots before/after —
     accepts) or a recognised control directory; the outside directory (canary,
     link targets) is unchanged; a dry run or a declined prompt removes nothing.
 
-Findings on the unchanged code (families computed from the failing layout):
-    nested-branch-below-unknown-dir, git-tree-nested-bzr-control-files,
-    bzr-tree-git-control-dir.
+Found by this check and repaired in /repo (fix: 0d2b8ad; no family is classified any more, a
+recurrence is a plain VIOLATION): an unknown directory with a branch below its first level was
+deleted whole (bzr, F10); in a git tree the files of a nested bzr branch and of its control
+directory were unlinked one by one; in a bzr tree a colocated `.git` directory was deleted.
+SCENARIOS below pins one layout per family (and per mutant that needs a special layout), run on
+every seed.
 
 The model has two final filters: the one found in the code and the proposed
 repair (`keepFixed`); the harness probes which one the tree implements
@@ -534,8 +537,9 @@ def oracle(viol, spec, o, rows, before, after, nroots, out_before, out_after, ra
             viol.append((case, "removed %r (ignored=%s detritus-named=%s) not in a requested class %s"
                          % (x, ign, is_det_name(x), enc_opts(o)), None))
         for kind, prot in protected_hits(x, info, nroots, ctl_entries):
-            fam = classify_family(fmt, x, kind, prot, info)
-            viol.append((case, "removed %r which %s %r" % (x, kind, prot), fam))
+            # the three input families on which this failed were repaired in /repo (0d2b8ad):
+            # any recurrence is a plain violation
+            viol.append((case, "removed %r which %s %r" % (x, kind, prot), None))
 
 
 def protected_hits(x, info, nroots, ctl_entries):
@@ -554,30 +558,6 @@ def protected_hits(x, info, nroots, ctl_entries):
             # a file of a nested branch that the outer tree does not version
             hits.append(("is a working file of the unversioned nested branch", nr))
     return hits
-
-
-def classify_family(fmt, x, kind, prot, info):
-    """family slug of 'removing x destroys prot', from the concrete layout"""
-    name = lambda p: p.rsplit("/", 1)[-1]
-    parent = lambda p: p.rsplit("/", 1)[0] if "/" in p else ""
-    if fmt == "2a":
-        if info[x][1] == "d" and not info[x][2] and x != prot and under(x, prot) and not (
-                name(prot) in (".bzr", ".git") and parent(prot) == x):
-            # an unversioned directory, itself not a branch, removed as a whole with a nested
-            # branch (or its control directory) strictly below its first level
-            return "nested-branch-below-unknown-dir"
-        if x == prot and name(x) == ".git" and info[x][1] == "d" and (parent(x) == "" or info[parent(x)][2]):
-            # the .git directory of a git repository colocated with the tree root or a versioned directory
-            return "bzr-tree-git-control-dir"
-    if fmt == "git":
-        # git's walk prunes directories holding a `.git` entry only: the files in and next to a
-        # nested (or colocated) *bzr* control directory are listed one by one
-        d = parent(prot) if name(prot) == ".bzr" else prot
-        c = d + "/.bzr" if d else ".bzr"
-        pruned = d != "" and (d + "/.git") in info
-        if c in info and info[c][4] and not pruned and (d == "" or under(d, x)):
-            return "git-tree-nested-bzr-control-files"
-    return None
 
 
 def run_layout(ctx, spec, viol, cases, lines, outs, opts_list):
@@ -642,6 +622,26 @@ def detritus_corpus(rng):
     return sorted(names)
 
 
+def _sc(fmt, entries, rules=()):
+    return dict(fmt=fmt, entries=[list(e) for e in entries], rules=list(rules), ignore_versioned=False)
+
+
+# fixed layouts, run first on every seed: one per repaired family and per mutant that needs a
+# special layout (nested git repository at depth 2 in a git tree; links; ignored + detritus names)
+SCENARIOS = [
+    _sc("2a", [["v", "f", True], ["unk", "d", False], ["unk/sub", "d", False], ["unk/sub/.bzr", "B", False],
+               ["unk/sub/file", "f", False], ["nest", "d", False], ["nest/.bzr", "B", False], ["nest/x", "f", False]]),
+    _sc("git", [["v", "f", True], ["nest", "d", False], ["nest/.bzr", "B", False], ["nest/file", "f", False],
+                ["a", "d", False], ["a/b", "d", False], ["a/b/.git", "G", False], ["a/b/inner.txt", "f", False],
+                ["a/c.o", "f", False]], ["*.o"]),
+    _sc("2a", [["v", "f", True], [".git", "G", False], ["w", "d", True], ["w/f", "f", True], ["w/.git", "G", False],
+               ["w/u~", "f", False], ["lnk", "Lo", False], ["lf", "Lf", False]]),
+    _sc("git", [["d", "d", False], ["d/v", "f", True], ["d/u.tmp", "f", False], ["d/k.o", "f", False],
+                ["lnk", "Lo", False], ["lf", "Lf", False], ["s", "d", False], ["s/.git", "gf", False],
+                ["s/x", "f", False]], ["*.o"]),
+]
+
+
 def run(ctx):
     from breezy.clean_tree import is_detritus
     viol = []
@@ -654,7 +654,8 @@ def run(ctx):
         for fn in sorted(os.listdir(cdir)):
             if fn.endswith(".json"):
                 specs.append(json.load(open(os.path.join(cdir, fn)))["spec"])
-    n = ctx.pick(14, 120)
+    specs.extend(SCENARIOS)
+    n = ctx.pick(12, 120)
     for k in range(n):
         for fmt in ("2a", "git"):
             specs.append(gen_spec(ctx.rng, fmt))
